@@ -77,6 +77,17 @@ func corpusImportedFuncs(prefix string) []*scen.Scenario {
 			"func Validate(d, s *ext.Shape) error {\n\tvtr.Enter(\"hooks.Validate\", d, s)\n\tif vtr.Fail(\"hooks.Validate\") {\n\t\treturn vtr.ErrOf(\"hooks.Validate\")\n\t}\n\treturn nil\n}\n"
 		out = append(out, s)
 	}
+	{
+		// an additional argument the setup file names `_`: the hook that declares it still receives it
+		id := prefix + "blankextra"
+		b := scen.NewBuilder(nil, scen.Profile{}, id, id)
+		b.Func("func ctxBefore(d, s *ext.Shape, tag string) {\n\tvtr.Enter(\"ctxBefore\", d, s, tag)\n}\n", true, "")
+		b.Func("func ctxAfter(d, s *ext.Shape, tag string) {\n\tvtr.Enter(\"ctxAfter\", d, s, tag)\n}\n", true, "")
+		m := &scen.Method{Name: "BlankExtra", Src: scen.Param{Type: "*ext.Shape", Name: "src"}, Dst: scen.Param{Type: "*ext.Shape", Name: "dst"},
+			Extras:    []scen.Param{{Type: "string", Name: "_"}},
+			Notations: []scen.Notation{scen.N("preprocess", "ctxBefore"), scen.N("postprocess", "ctxAfter")}, Probes: shapeProbes()}
+		out = append(out, b.Manual(m))
+	}
 	return out
 }
 
